@@ -626,4 +626,146 @@ example : (∀ t ∈ [tNum ['1'], Tok.mk .delim ['/'] [], Tok.mk .delim ['*'] []
   simp only [List.mem_cons, List.mem_nil_iff, or_false] at ht
   rcases ht with h | h | h <;> subst h <;> simp [TokShape, tNum, Tok.tt, Tok.data]
 
+/-! ## (f) background-position -/
+
+/-- **background-position, structured layer rewrite**: see `bg_position_ok` -/
+theorem bg_position_layer_ok (seg : List Tok) (p : Off × Off)
+    (hs : ∀ t ∈ seg, pkwOf t = none → OffSound t) (hv : position seg = some p) :
+    position (bgPosClean seg).1 = some p := by
+  match seg with
+  | [] => simp [position] at hv
+  | [a] =>
+    simp only [bgPosClean]
+    cases hk : pkwOf a with
+    | none =>
+      have sa := hs a (by simp) hk
+      simp only [kwValue, hk, Option.toList_some]
+      rw [position_val1 _ (pkwOf_pctZero a hk), offOf_pctZero a sa.zero, ← position_val1 a hk]
+      exact hv
+    | some k =>
+      rw [← hv]
+      cases k <;> simp only [kwValue, hk, Option.toList_some, position] <;> decide +kernel
+  | [a0, b0] =>
+    cases ha : pkwOf a0 with
+    | none =>
+      have sa := hs a0 (by simp) ha
+      cases hb : pkwOf b0 with
+      | none =>
+        have sb := hs b0 (by simp) hb
+        simp only [position, ha, hb] at hv
+        have := second_lp a0 b0 ha hb sa.zero sb.zero
+        simp [bgPosClean, ha, hb, kwValue] at this ⊢
+        rw [← hv]; exact this
+      | some kb =>
+        simp only [position, ha, hb] at hv
+        have c0 := offOf_consts
+        cases kb <;> simp [vert, both_none_right] at hv
+        · -- top
+          simp [bgPosClean, ha, hb, kwValue]
+          rw [position_vals2 _ _ (pkwOf_pctZero a0 ha) c0.2.2.2.2.1, offOf_pctZero a0 sa.zero, c0.1, ← hv]; rfl
+        · -- bottom
+          simp [bgPosClean, ha, hb, kwValue]
+          rw [position_vals2 _ _ (pkwOf_pctZero a0 ha) c0.2.2.2.2.2.1, offOf_pctZero a0 sa.zero, c0.2.1, ← hv]; rfl
+        · -- center
+          simp [bgPosClean, ha, hb, kwValue]
+          rw [position_val1 _ (pkwOf_pctZero a0 ha), offOf_pctZero a0 sa.zero, ← hv]
+          cases offOf a0 <;> rfl
+    | some ka =>
+      cases hb : pkwOf b0 with
+      | none =>
+        have sb := hs b0 (by simp) hb
+        have c0 := offOf_consts
+        simp only [position, ha, hb] at hv
+        cases ka <;> simp [horiz, both_none_left] at hv
+        · -- left
+          have := second_lp tZero b0 c0.2.2.2.2.1 hb (fun _ => c0.1) sb.zero
+          simp [bgPosClean, ha, hb, kwValue] at this ⊢
+          rw [show pctZero tZero = tZero from rfl] at this
+          rw [this, c0.1, ← hv]; rfl
+        · -- right
+          have := second_lp t100 b0 c0.2.2.2.2.2.1 hb (fun h => absurd h (by decide)) sb.zero
+          simp [bgPosClean, ha, hb, kwValue] at this ⊢
+          rw [show pctZero t100 = t100 from rfl] at this
+          rw [this, c0.2.1, ← hv]; rfl
+        · -- center
+          have := second_lp t50 b0 c0.2.2.2.2.2.2.1 hb (fun h => absurd h (by decide)) sb.zero
+          simp [bgPosClean, ha, hb, kwValue] at this ⊢
+          rw [show pctZero t50 = t50 from rfl] at this
+          rw [this, c0.2.2.1, ← hv]; rfl
+      | some kb =>
+        simp only [position, ha, hb] at hv
+        cases ka <;> cases kb <;>
+          first
+          | (exfalso; revert hv; simp [groups2, axisH, axisV, horiz, vert, both, orElse']; done)
+          | (rw [← hv]; simp [bgPosClean, ha, hb, kwValue]; decide +kernel)
+  | [a, b, c] =>
+    cases ha : pkwOf a with
+    | none => simp [position, ha] at hv
+    | some ka =>
+      cases hb : pkwOf b with
+      | none =>
+        cases hc : pkwOf c with
+        | none => simp [position, ha, hb, hc] at hv
+        | some kc =>
+          simp only [position, ha, hb, hc] at hv
+          have sb := hs b (by simp) hb
+          have := assemble_ok ka kc a c (some b) none p ha hc (by intro t ht; cases ht; exact ⟨hb, sb⟩) (by simp) hv
+          simpa [bgPosClean, ha, hb, hc] using this
+      | some kb =>
+        cases hc : pkwOf c with
+        | some kc => simp [position, ha, hb, hc] at hv
+        | none =>
+          simp only [position, ha, hb, hc] at hv
+          have sc := hs c (by simp) hc
+          have := assemble_ok ka kb a b none (some c) p ha hb (by simp) (by intro t ht; cases ht; exact ⟨hc, sc⟩) hv
+          simpa [bgPosClean, ha, hb, hc] using this
+  | [a, b, c, d] =>
+    cases ha : pkwOf a with
+    | none => simp [position, ha] at hv
+    | some ka =>
+      cases hb : pkwOf b with
+      | some kb => simp [position, ha, hb] at hv
+      | none =>
+        cases hc : pkwOf c with
+        | none => simp [position, ha, hb, hc] at hv
+        | some kc =>
+          cases hd : pkwOf d with
+          | some kd => simp [position, ha, hb, hc, hd] at hv
+          | none =>
+            simp only [position, ha, hb, hc, hd] at hv
+            have sb := hs b (by simp) hb
+            have sd := hs d (by simp) hd
+            have := assemble_ok ka kc a c (some b) (some d) p ha hc (by intro t ht; cases ht; exact ⟨hb, sb⟩)
+              (by intro t ht; cases ht; exact ⟨hd, sd⟩) hv
+            simpa [bgPosClean, ha, hc] using this
+  | _ :: _ :: _ :: _ :: _ :: _ => simp [position] at hv
+
+/-- **background-position** (one layer): for every layer that is a valid `<bg-position>` (CSS Backgrounds 3 §3.6:
+    one to four values, keywords in either order, offsets of any kind), whose offset tokens satisfy the lexer /
+    number contracts `OffSound`, the rewritten layer denotes the same pair of offsets from the top-left corner —
+    keyword → percentage conversion, zero-offset removal, `right`/`bottom` whole-percentage flipping
+    (`right 10% bottom 20%` ↦ (90%, 80%)), `center`/`50%` dropping, 3- and 4-value forms included. -/
+theorem bg_position_ok (seg : List Tok) (p : Off × Off) (hnc : ∀ t ∈ seg, isComma t = false)
+    (hs : ∀ t ∈ seg, pkwOf t = none → OffSound t) (hv : position seg = some p) :
+    position (minifyBgPosition seg) = some p := by
+  have hne : seg.isEmpty = false := by
+    cases seg with
+    | nil => simp [position] at hv
+    | cons _ _ => rfl
+  unfold minifyBgPosition
+  rw [bgPosLayers_noComma [] seg hnc]
+  simp only [List.reverse_nil, List.nil_append, hne, Bool.false_eq_true, if_false]
+  have : bgPosLayer seg = bgPosClean seg := by
+    unfold bgPosLayer
+    simp [hv]
+  rw [this]
+  exact bg_position_layer_ok seg p hs hv
+
+/-- the regression input of fix a2ebf7c: both offsets flipped, no aliasing -/
+example : minifyBgPosition [tIdent (S "right"), tPct (S "10%"), tIdent (S "bottom"), tPct (S "20%")] =
+      [tPct (S "90%"), tPct (S "80%")] ∧
+    position [tIdent (S "right"), tPct (S "10%"), tIdent (S "bottom"), tPct (S "20%")] = some (pct 90, pct 80) ∧
+    position [tPct (S "90%"), tPct (S "80%")] = some (pct 90, pct 80) := by
+  decide +kernel
+
 end Verif.Props.C04
